@@ -5,6 +5,7 @@ package props
 import (
 	"bufio"
 	"encoding/base64"
+	"encoding/binary"
 	"encoding/json"
 	"fmt"
 	"math"
@@ -224,7 +225,39 @@ func utf8Valid(b []byte) bool {
 	return true
 }
 
+// firstLineDiff names the first line that is in one multiset only; long lines are clipped, and when the other side has a
+// line for the same element (same text up to the last '|') the lengths and the first differing position are given.
 func firstLineDiff(got, want []string) string {
+	d := firstLineDiffRaw(got, want)
+	i := strings.Index(d, "line ")
+	if i < 0 {
+		return d
+	}
+	line := d[i+5:]
+	other := want
+	if strings.HasPrefix(d, "missing") {
+		other = got
+	}
+	detail := ""
+	if k := strings.LastIndex(line, "|"); k > 0 {
+		for _, o := range other {
+			if strings.HasPrefix(o, line[:k+1]) && o != line {
+				p := 0
+				for p < len(o) && p < len(line) && o[p] == line[p] {
+					p++
+				}
+				detail = fmt.Sprintf(" (the other side has a line for the same element: lengths %d vs %d, first difference at character %d)", len(line), len(o), p)
+				break
+			}
+		}
+	}
+	if len(line) > 200 {
+		line = line[:200] + fmt.Sprintf("...(%d characters)", len(line))
+	}
+	return d[:i+5] + line + detail
+}
+
+func firstLineDiffRaw(got, want []string) string {
 	gi, wi := 0, 0
 	for gi < len(got) && wi < len(want) {
 		switch {
@@ -248,11 +281,30 @@ func firstLineDiff(got, want []string) string {
 
 func TestC17(t *testing.T) { rapid.Check(t, c17Case) }
 
+// c17Chunked: a file holding one hash beyond the loader's 16 MiB chunk limit (sizes placed around the limit: exactly on
+// it, one byte either side, crossing on the last pair, two and three chunks) between small keys, decoded with 1-4 workers.
+func c17Chunked(t *rapid.T) {
+	bh := drawBigHashFile(t)
+	hv := gen.Value{Kind: "hash"}
+	for i, f := range bh.fields {
+		hv.Hash = append(hv.Hash, gen.HE{Field: f, Value: bh.pairBytes[bh.valSpans[i][0]:bh.valSpans[i][1]]})
+	}
+	bh.file.Records[bh.keyIndex].Logical = &hv
+	defer quietLog()()
+	c17Check(t, bh.file, rapid.IntRange(1, 4).Draw(t, "parallel"))
+}
+
+func TestC17Chunked(t *testing.T) { rapid.Check(t, c17Chunked) }
+
 // hand-built files for the regression tier
 func handFile(records []gen.Record) *gen.File {
 	b := []byte("REDIS0009")
 	b = append(b, gen.OpSelectDB, 0)
 	for _, r := range records {
+		if r.ExpireAt != 0 {
+			b = append(b, gen.OpExpireMs)
+			b = binary.LittleEndian.AppendUint64(b, r.ExpireAt)
+		}
 		b = append(b, r.Type)
 		b = gen.AppendRawString(b, r.Key)
 		b = append(b, r.ValBytes...)
@@ -271,25 +323,20 @@ func TestC17Regress(t *testing.T) {
 	val = append(val, 254)
 	f := handFile([]gen.Record{{DB: 0, Key: []byte("z"), Type: gen.TZSet, ValBytes: val, Logical: &zv, Label: "zset/skiplist-text"}})
 	c17Check(t, f, 1) // fixed finding: must pass
-	// known finding: a hash beyond the 16 MiB chunk limit reaches the decoder in pieces that it cannot decode
-	reportKnown(t, "C17", "abort:chunked-hash", func(ft fataler) {
-		hv := gen.Value{Kind: "hash"}
-		val := gen.AppendLen(nil, 18, 0)
-		for i := 0; i < 18; i++ {
-			fld, v := []byte(fmt.Sprintf("f%02d", i)), patBytes(uint32(i), 1<<20)
-			hv.Hash = append(hv.Hash, gen.HE{Field: fld, Value: v})
-			val = gen.AppendRawString(val, fld)
-			val = append(val, 0x80, 0, 0x10, 0, 0)
-			val = append(val, v...)
-		}
-		bf := handFile([]gen.Record{{DB: 0, Key: []byte("bighash"), Type: gen.THash, ValBytes: val, Logical: &hv, Label: "hash/chunked"}})
-		lines, res := runDecode(ft, bf.Bytes, 2)
-		if !res.Completed {
-			violation(ft, "C17", "abort:chunked-hash", "18 MiB hash (delivered in chunks by the parser): decode aborted: %v", res)
-			return
-		}
-		if len(lines) != 18 {
-			violation(ft, "C17", "abort:chunked-hash", "18 MiB hash: %d lines instead of 18", len(lines))
-		}
-	})
+	// fixed D12: a hash beyond the 16 MiB chunk limit reaches the decoder in pieces; each piece must be decoded as such
+	hv := gen.Value{Kind: "hash"}
+	hval := gen.AppendLen(nil, 18, 0)
+	for i := 0; i < 18; i++ {
+		fld, v := []byte(fmt.Sprintf("f%02d", i)), patBytes(uint32(i), 1<<20)
+		hv.Hash = append(hv.Hash, gen.HE{Field: fld, Value: v})
+		hval = gen.AppendRawString(hval, fld)
+		hval = append(hval, 0x80, 0, 0x10, 0, 0)
+		hval = append(hval, v...)
+	}
+	bf := handFile([]gen.Record{{DB: 0, Key: []byte("bighash"), Type: gen.THash, ValBytes: hval, Logical: &hv, Label: "hash/chunked"}})
+	c17Check(t, bf, 2)
+	c17Check(t, bf, 1)
+	// fixed: the lines of the later chunks carried expireat 0 instead of the key's expiry
+	bf = handFile([]gen.Record{{DB: 0, Key: []byte("bighash"), Type: gen.THash, ValBytes: hval, Logical: &hv, Label: "hash/chunked", ExpireAt: 4102444800000}})
+	c17Check(t, bf, 2)
 }
